@@ -103,6 +103,8 @@ func zero(t types.Type) value {
 		return sliceVal{nil, sizes.Sizeof(u.Elem())}
 	case *types.Map:
 		return (*mapVal)(nil)
+	case *types.Chan:
+		return (*chanVal)(nil)
 	case *types.Interface:
 		return iface{}
 	case *types.Signature:
